@@ -55,6 +55,11 @@ claimed = {
    note="Schedules are enumerated (structural forks). Bounds on items/buffer/list. Data-race freedom assumed. Native replay cannot force a schedule: schedule-dependent counterexamples are confirmed natively only if they reproduce under the Go scheduler.",
    technique="SSA symbolic execution with exhaustive interleaving exploration (bounded model checking of schedules)",
    design="5 C18"),
+ "C16": dict(
+   text="Two of the three pieces of recovery are decided: (1) the real locateBirthdayBlock over a chain stub whose block timestamps are an arbitrary monotone symbolic function, with symbolic best height (chains up to 16 blocks quick, 64 thorough) and symbolic birthday: terminates within log2 steps, returns a block of the chain that is block 0 or not later than birthday+2h; (2) the real BranchRecoveryState, expandScopeHorizons and extendFoundAddresses with a key manager whose derivation marks arbitrary child indexes invalid (symbolic): after every expansion every valid index inside the look-ahead window is derived and watched and W valid addresses lie beyond the highest found index; after a find the next index is above the highest used, the manager is extended to it and the address marked used.",
+   note="The full recovery loop (block filtering, recorded transactions, final balance, batch boundaries, interruption) is NOT covered; see not-covered list in evidence.assumptions. Bounded chain length / window; Time.Sub stubbed by contract; piece 2 uses function stubs and engine re-execution instead of native replay.",
+   technique="SSA symbolic execution + SMT (symbolic monotone timestamps, integer-mode arithmetic) and bounded exploration with symbolic invalid-child pattern",
+   design="5 C16"),
 }
 
 not_applicable = {
